@@ -763,13 +763,37 @@ func (env *LEnv) New(typ *LVal, args *LVal) *LVal {
 	if args.Type != LSExpr {
 		return env.Errorf("second argument is not a list: %v", GetType(args))
 	}
-	tname := typ.Cells[0].Cells[0]
-	ctor := typ.Cells[0].Cells[1]
+	tname, ctor, ok := TypedefParts(typ)
+	if !ok {
+		// A tagged value can carry the typedef tag without being one: a
+		// program may define a type NAMED lisp:typedef and instantiate it
+		// with any user data.
+		return env.Errorf("first argument is not a well-formed typedef")
+	}
 	v := env.FunCall(ctor, args)
 	if v.Type == LError {
 		return v
 	}
 	return env.TaggedValue(tname, v)
+}
+
+// TypedefParts returns the type name and the constructor held by a typedef
+// value.  The boolean is false when typ does not have the shape of a typedef
+// -- user data that is a list of a symbol (or string) name and a constructor
+// -- whatever its tag says.
+func TypedefParts(typ *LVal) (name *LVal, ctor *LVal, ok bool) {
+	if typ == nil || typ.Type != LTaggedVal || len(typ.Cells) != 1 {
+		return nil, nil, false
+	}
+	data := typ.Cells[0]
+	if data == nil || data.Type != LSExpr || len(data.Cells) != 2 {
+		return nil, nil, false
+	}
+	name, ctor = data.Cells[0], data.Cells[1]
+	if name == nil || ctor == nil || (name.Type != LSymbol && name.Type != LString) {
+		return nil, nil, false
+	}
+	return name, ctor, true
 }
 
 // Lambda returns a new Lambda with fun.Env and fun.Package set automatically.
